@@ -105,3 +105,42 @@ def merge_map(spec):
         mm[c] = sorted(set(st[sc == c].tolist()))
     nan_idx = sorted(c for c, v in mm.items() if not v)
     return mm, nan_idx
+
+
+# ---- C09 / C14 ---------------------------------------------------------------------------------------
+
+def amps_true(data, wmi, spikes, amps, factor=1.):
+    """Direct formulas of the amplitude conversion. data: (n_wav, n_samples, n_channels) whitened
+    waveforms; returns (scaled spike amplitudes, rescaled unwhitened waveforms, per-id mean amplitude),
+    all multiplied by factor; NaN for ids without spikes."""
+    data = np.asarray(data, dtype=np.float64)
+    U = data @ wmi
+    au = ptp_axis1(U).max(axis=1)
+    spikes = np.asarray(spikes, dtype=np.int64)
+    sa = au[spikes] * amps
+    n_wav = data.shape[0]
+    per_id = np.full(n_wav, np.nan)
+    for i in range(n_wav):
+        sel = spikes == i
+        if sel.any():
+            per_id[i] = sa[sel].mean()
+    with np.errstate(all='ignore'):
+        phys = U * (per_id / au)[:, None, None]
+    return sa * factor, phys * factor, per_id * factor
+
+
+def ptp_axis1(x):
+    return x.max(axis=1) - x.min(axis=1)
+
+
+def l1_nearest(positions, probes, peak, n):
+    """(ordered distance vector, must set, may set) for the n nearest same-probe channels (L1)."""
+    d = np.abs(positions - positions[peak]).sum(axis=1)
+    same = probes == probes[peak]
+    cand = np.nonzero(same)[0]
+    n_eff = min(n, len(cand))
+    dk = np.sort(d[cand])[n_eff - 1]
+    tol = 1e-9 * max(1., dk)
+    must = set(c for c in cand.tolist() if d[c] < dk - tol)
+    may = set(c for c in cand.tolist() if d[c] <= dk + tol)
+    return d, n_eff, must, may
